@@ -1542,3 +1542,55 @@ Qed.
 Lemma digest_probe_v1_refuted :
   exists limit body, (eff_limit limit < Z.of_nat (length (fst (digest_probe_v1 limit body))))%Z.
 Proof. exists 3%Z, (b "abcdef"). vm_compute. reflexivity. Qed.
+
+(* ---------- the collecting helpers ---------- *)
+
+(* registry.Tags / registry.Repositories: the whole list the registry shows, once, in order *)
+Theorem collect_all_listing :
+  forall (L : list item) (cap : nat) (ds : nat -> decision)
+         (render : nat -> url -> url -> str) (trailer : nat -> str)
+         (resolve : url -> str -> option url) (c : cfg) (cu : cursor) (npath : nat -> str -> str) (vis : item -> bool)
+         (path : str) (fuel : nat),
+    cursor_ok cu ->
+    c_kind c <> KReferrers ->
+    NoDup (map fst L) -> (forall it, In it L -> fst it <> []) ->
+    (forall i base x, In x (map fst L) ->
+       contains c_gt (render i base (link_target ds cu npath i base x)) = false) ->
+    (forall i base x, In x (map fst L) ->
+       resolve base (render i base (link_target ds cu npath i base x)) = Some (link_target ds cu npath i base x)) ->
+    (forall i, (Z.of_N (d_doc_len (ds i)) <= eff_limit (c_limit c))%Z) ->
+    (length L < fuel)%nat ->
+    collect_all (loop (reg_serve (c_kind c) cu npath vis L cap ds render trailer) resolve (fun _ => false) c
+                      fuel 0 0 (mkUrl path []) []) = (Done, filter vis L).
+Proof.
+  intros L cap ds render trailer resolve c cu npath vis path fuel Hcu K Hnd Hne Hgt Hres Hfit Hfuel.
+  destruct (listing_exactly_once L cap ds render trailer resolve c cu npath vis path [] fuel
+              Hcu K Hnd Hne Hgt Hres Hfit Hfuel) as (O & P & _).
+  unfold collect_all. cbv zeta in O, P. rewrite O, P. reflexivity.
+Qed.
+
+(* registry.Referrers / Repository.Predecessors (artifact type as asked) *)
+Theorem collect_all_referrers :
+  forall (L : list item) (cap : nat) (ds : nat -> decision)
+         (render : nat -> url -> url -> str) (trailer : nat -> str)
+         (resolve : url -> str -> option url) (c : cfg) (cu : cursor) (npath : nat -> str -> str) (vis : item -> bool)
+         (path : str) (fuel : nat),
+    cursor_ok cu ->
+    c_kind c = KReferrers ->
+    NoDup (map fst L) -> (forall it, In it L -> fst it <> []) ->
+    (forall i base x, In x (map fst L) ->
+       contains c_gt (render i base (link_target ds cu npath i base x)) = false) ->
+    (forall i base x, In x (map fst L) ->
+       resolve base (render i base (link_target ds cu npath i base x)) = Some (link_target ds cu npath i base x)) ->
+    (forall i, (Z.of_N (d_doc_len (ds i)) <= eff_limit (c_limit c))%Z) ->
+    (forall i, qget k_at (d_extra (ds i)) = None) ->
+    (length L < fuel)%nat ->
+    collect_all (loop (reg_serve KReferrers cu npath vis L cap ds render trailer) resolve (fun _ => false) c
+                      fuel 0 0 (mkUrl path (referrers_query (c_at c))) []) =
+    (Done, filter_referrers (filter vis L) (c_at c)).
+Proof.
+  intros L cap ds render trailer resolve c cu npath vis path fuel Hcu K Hnd Hne Hgt Hres Hfit Hex Hfuel.
+  destruct (referrers_exactly_once L cap ds render trailer resolve c cu npath vis path fuel
+              Hcu K Hnd Hne Hgt Hres Hfit Hex Hfuel) as (O & P & _).
+  unfold collect_all. cbv zeta in O, P. rewrite O, P. reflexivity.
+Qed.
